@@ -87,7 +87,7 @@ class DiscSpec(netx.Spec):
 
     def canon_extra(self, world):
         m = world.mon
-        return (sorted(m["ref"]["hosted"].items()), sorted(m["ref"]["replicas"]), sorted(m["ref"]["subs"]), sorted(m["ref"]["agents"]), m["ref"]["nops"], sorted(m["ref"]["unsubbed"]), sorted(m["ref"].get("last_host", {}).items()), sorted(m["ref"].get("left", [])), sorted(m["ref"].get("at_sub", {}).items()),
+        return (sorted(m["ref"]["hosted"].items()), sorted(m["ref"]["replicas"]), sorted(m["ref"]["subs"]), sorted(m["ref"]["agents"]), m["ref"]["nops"], sorted(m["ref"]["unsubbed"]), sorted(m["ref"].get("last_host", {}).items()), sorted(m["ref"].get("left", [])), sorted(m["ref"].get("at_sub", {}).items()), sorted(m["ref"].get("r_interrupted", [])),
                 sorted((k, v) for k, v in m.get("cb", {}).items()))
 
     def extra_events(self, world):
@@ -112,8 +112,10 @@ class DiscSpec(netx.Spec):
                     evs.append(("op", x, "unregC", c))
                 if (c, x) in [tuple(r) for r in ref["replicas"]]:
                     evs.append(("op", x, "unregR", c))
-                elif h != x and h is not None and self._knows(world, x, c):
-                    # documented precondition of register_replica: the computation is known (locally) and hosted elsewhere
+                elif h != x and h is not None and self._host_seen(world, x, c) == h:
+                    # documented precondition of register_replica: the computation is known (locally) and hosted elsewhere. An
+                    # agent only takes a replica on request of the current owner, i.e. causally after the owner's registration:
+                    # it knows the *current* host (a stale local entry of a former host does not count)
                     evs.append(("op", x, "regR", c))
                 for kind in ("C", "R"):
                     if (x, kind, c) in [tuple(s) for s in ref["subs"]]:
@@ -133,6 +135,12 @@ class DiscSpec(netx.Spec):
         if self.only is not None:
             evs = [e for e in evs if e[2] in self.only]
         return evs
+
+    def _host_seen(self, world, x, c):
+        try:
+            return disc(world, x).computation_agent(c)
+        except Exception:  # noqa: UnknownComputation
+            return None
 
     def _knows(self, world, x, c):
         try:
@@ -166,6 +174,9 @@ class DiscSpec(netx.Spec):
         elif op == "unregC":
             d.unregister_computation(arg, x)
             ref["hosted"][arg] = None
+            for s_ in ref["subs"]:
+                if s_[1] == "R" and s_[2] == arg and [s_[0], arg] not in ref.setdefault("r_interrupted", []):
+                    ref["r_interrupted"].append([s_[0], arg])
             # a host that publishes the removal of its own computation is unsubscribed from it by the implementation
             # ("we must unsubscribe first, so that we don't get a notification from the directory")
             if [x, "C", arg] in ref["subs"]:
@@ -195,6 +206,8 @@ class DiscSpec(netx.Spec):
         elif op == "unsubR":
             d.unsubscribe_replica(arg)
             ref["subs"].remove([x, "R", arg])
+            if [x, arg] in ref.get("r_interrupted", []):
+                ref["r_interrupted"].remove([x, arg])
             if [x, "R", arg] not in ref["unsubbed"]:
                 ref["unsubbed"].append([x, "R", arg])
             world.mon.get("cb", {}).pop((x, "R", arg), None)
@@ -273,6 +286,8 @@ class DiscSpec(netx.Spec):
                 if mine != theirs:
                     stale = "stale-replica" if mine - theirs else "missing-replica"
                     resub = "after-resubscription" if [x, "R", item] in ref["unsubbed"] else "first-subscription"
+                    if [x, item] in ref.get("r_interrupted", []):
+                        resub += "+computation-unregistered-and-registered-again-meanwhile"
                     report(f"C20|view-differs|replica|{stale}|{resub}", f"quiescent: {x} sees replicas of {item} on {sorted(mine)}, the directory on {sorted(theirs)}; model {ref}")
                     return
             elif kind == "A":
